@@ -33,6 +33,8 @@ SPEC = {
     "witnesses": ["F1", "F14", "F15", "F41", "F50"],
     "rule": "deterministic matrix (one case per persistent field type and container kind x every format/option, typed dicts with binary (hex/base64) and "
             "integer KEY fields at the root / nested / in list items, the finding regions F34/F35/F36/F53, stale list items (F50 regression), "
+            "secrets of every method with UTF-8 lengths 31..1000 around the 32-byte key and the AES block (ASCII and multi-byte) at the root / nested / "
+            "in list items / in typed lists and dicts, long strings (<= 2000) and binary values (<= 300), "
             "virtual/method fields, normalisation cases) plus seeded random schemas (depth <= 3, lists of schemas, config types, dynamic) with "
             "states reached by random valid assignments; cases that fit Config.v's vocabulary (int/str/bool/flag/any leaves, sub-schemas, lists "
             "of configurations, validators) reach their state by a configops history and are also evaluated by the model; non-trivial = at least "
